@@ -50,6 +50,17 @@ CHECKS.update({
                 text='All 64 type ids x flag patterns x stream-id classes x body truncations, all sequences of hostile items up to the stated length and every application entry point raising are executed against a real endpoint; containment is judged by termination, task liveness, stream confinement and in-flight/fresh probes.',
                 ref='4 C12'),
 })
+CHECKS.update({
+    'C14': dict(tech='exhaustive enumeration of operation sequences (LEASE frames, requests, clock advances) under a virtual clock against a reference lease ledger',
+                text='All sequences up to the stated depth over LEASE x request x advance are executed on the real lease-honouring requester with the wall clock replaced by the virtual clock; a reference ledger judges every request frame; responder leases are enumerated as a product.',
+                ref='4 C14'),
+    'C15': dict(tech='deviation-bounded exhaustive exploration of acknowledgement patterns under a virtual clock + exhaustive echo product',
+                text='The scripted server decides at every KEEPALIVE whether and when to acknowledge; all patterns within the deviation bound are run against the real client on the virtual clock and judged for periodic emission, no false timeout and timely detection.',
+                ref='4 C15'),
+    'C16': dict(tech='exhaustive products of configurations and server inputs + deviation-bounded schedule exploration of the connect race',
+                text='Configuration alphabets are enumerated completely against the decoded SETUP; the connect race (suspending transport, late provider, requests issued while connecting) is explored over all schedules within the bound; every combination of SETUP flags/handler outcomes and RESUME is fed to a real server.',
+                ref='4 C16'),
+})
 NOT_YET = {
 }
 ALL = ['C%02d' % i for i in range(1, 21)]
